@@ -19,30 +19,31 @@
     (suspicion S3 of DESIGN.md, confirmed): before it, nil pointer fields were neither written nor
     cleared, and [C40_unfixed_script_keeps_stale_field] below exhibits the stale field in the model of
     the old argument vector. *)
-From Coq Require Import List Arith NArith ZArith Bool.
+From Coq Require Import List Arith NArith ZArith Bool String.
 Require Import RV.Model.Base RV.Model.Om RV.Proofs.OmProofs.
 Import ListNotations.
 Open Scope N_scope.
+Open Scope string_scope.
 
 (** At most one of the saves that carry version [v] succeeds — in every history of saves and fetches
     (any versions, any entities, any initial server state) during which the key is [quiet]. *)
 Theorem C40_one_winner :
-  forall (J : Type) (jprint : J -> bytes) (jparse : bytes -> option J) (jzero : J)
+  forall (J : Type) (jprint : J -> bytes) (jparse : bytes -> option J) (jzero : bytes -> J)
          (sc : schema) (vn : bytes) (v : Z) (ops : list (op J)) (st : option hrec),
     s_ver sc = Some vn -> saves_wf J sc ops -> quiet J jprint sc st ops ->
     (wins J v ops (snd (run J jprint jparse jzero sc st ops)) <= 1)%nat.
-Proof. intros J jprint jparse jzero sc vn v ops st. exact (one_winner J jprint jparse jzero sc vn v). Qed.
+Proof. intros J jprint jparse jzero sc vn v ops st H. exact (one_winner J jprint sc jparse jzero vn v H ops st). Qed.
 Print Assumptions C40_one_winner.
 
 (** … and every save of the history answers with its version + 1 or with ErrVersionMismatch. *)
 Theorem C40_others_mismatch :
-  forall (J : Type) (jprint : J -> bytes) (jparse : bytes -> option J) (jzero : J)
+  forall (J : Type) (jprint : J -> bytes) (jparse : bytes -> option J) (jzero : bytes -> J)
          (sc : schema) (vn : bytes) (ops : list (op J)) (st : option hrec),
     s_ver sc = Some vn -> saves_wf J sc ops -> quiet J jprint sc st ops ->
     Forall2 (fun o b => match o with
-                        | OSave _ _ e => b = BSave J (SaveOk (e_ver J e + 1)) \/ b = BSave J SaveMismatch
+                        | OSave _ _ e => b = BSave J (SaveOk (e_ver J e + 1)%Z) \/ b = BSave J SaveMismatch
                         | _ => True end) ops (snd (run J jprint jparse jzero sc st ops)).
-Proof. intros J jprint jparse jzero sc vn ops st. exact (history_outcomes J jprint jparse jzero sc vn). Qed.
+Proof. intros J jprint jparse jzero sc vn ops st H. exact (history_outcomes J jprint sc jparse jzero vn H ops st). Qed.
 Print Assumptions C40_others_mismatch.
 
 (** A successful Save reports version + 1 and stores exactly that numeral in the version field. *)
@@ -52,7 +53,7 @@ Theorem C40_version_plus_one :
     s_ver sc = Some vn -> wf J sc e -> lua_ver_ok (e_ver J e) = true ->
     save J jprint sc now st0 e = (st', SaveOk v') ->
     v' = (e_ver J e + 1)%Z /\
-    (ext_future J now e -> exists r, st' = Some r /\ hget (h_fields r) vn = Some (print_Z (e_ver J e + 1))).
+    (ext_future J now e -> exists r, st' = Some r /\ hget (h_fields r) vn = Some (print_Z (e_ver J e + 1)%Z)).
 Proof. intros J jprint sc now st0 st' e v' vn. exact (version_plus_one J jprint sc now st0 e st' v' vn). Qed.
 Print Assumptions C40_version_plus_one.
 
@@ -60,7 +61,7 @@ Print Assumptions C40_version_plus_one.
     content of the key — returns the saved entity: same key, every field of every supported kind
     (nil pointers included), and the version the save reported. *)
 Theorem C40_roundtrip :
-  forall (J : Type) (jprint : J -> bytes) (jparse : bytes -> option J) (jzero : J),
+  forall (J : Type) (jprint : J -> bytes) (jparse : bytes -> option J) (jzero : bytes -> J),
     (forall j, jparse (jprint j) = Some j) ->
   forall (sc : schema) (now now' : Z) (st0 st' : option hrec) (e : entity J) (v' : Z),
     wf J sc e -> ver_in_range J sc e -> ext_future J now e ->
@@ -68,7 +69,7 @@ Theorem C40_roundtrip :
     exists e', fetch J jparse jzero sc now' st' = Ok e' /\ e_key J e' = e_key J e /\
                e_fields J e' = e_fields J e /\
                e_ver J e' = match s_ver sc with Some _ => v' | None => 0%Z end.
-Proof. intros J jprint jparse jzero H sc now now' st0 st' e v'. exact (roundtrip J jprint jparse jzero H sc now now' st0 e st' v'). Qed.
+Proof. intros J jprint jparse jzero H sc now now' st0 st' e v'. exact (roundtrip J jprint sc jparse jzero H now now' st0 e st' v'). Qed.
 Print Assumptions C40_roundtrip.
 
 (** The key is live at the instant of the save, so [C40_roundtrip]'s last hypothesis is satisfiable. *)
@@ -91,8 +92,8 @@ Section JsonStatement.
     vn <> [] /\
     (forall e, exists d, jset (jenc e) = Some d /\ jget d vn = Some (print_Z (ent_ver e)) /\ jdec (jroot d) = Some e) /\
     (forall d z, jget d vn = Some (print_Z z) -> exists d',
-        jincr d vn = Some (d', print_Z (z + 1)) /\ jget d' vn = Some (print_Z (z + 1)) /\
-        (forall e, jdec (jroot d) = Some e -> jdec (jroot d') = Some (ent_set_ver e (z + 1)))).
+        jincr d vn = Some (d', print_Z (z + 1)%Z) /\ jget d' vn = Some (print_Z (z + 1)%Z) /\
+        (forall e, jdec (jroot d) = Some e -> jdec (jroot d') = Some (ent_set_ver e (z + 1)%Z))).
 End JsonStatement.
 
 Theorem C40_json_one_winner_partial :
@@ -112,7 +113,7 @@ Theorem C40_json_others_mismatch_partial :
     json_laws doc ent jset jget jincr jroot jenc jdec ent_ver ent_set_ver vn ->
   forall (ops : list (Z * ent)) (st : option (jrec doc)),
     doc_ok doc jget vn st -> jquiet doc jset jget jincr ent jenc ent_ver ent_ext vn st ops ->
-    Forall2 (fun o r => r = JSaveOk (ent_ver (snd o) + 1) \/ r = JSaveMismatch) ops
+    Forall2 (fun o r => r = JSaveOk (ent_ver (snd o) + 1)%Z \/ r = JSaveMismatch) ops
             (jhist doc jset jget jincr ent jenc ent_ver ent_ext vn st ops).
 Proof.
   intros doc ent jset jget jincr jroot jenc jdec ent_ver ent_set_ver ent_ext vn (H1 & H2 & H3) ops st.
@@ -127,7 +128,7 @@ Theorem C40_json_save_fetch_partial :
     ent_ok ent ent_ver ent_ext e -> doc_ok doc jget vn (jlive doc now st0) -> jext_future ent ent_ext now e ->
     jsave doc jset jget jincr ent jenc ent_ver ent_ext vn now st0 e = (st', JSaveOk v') ->
     jlive doc now' st' = st' ->
-    v' = (ent_ver e + 1)%Z /\ jfetch doc jroot ent jdec now' st' = Ok (ent_set_ver e (ent_ver e + 1)).
+    v' = (ent_ver e + 1)%Z /\ jfetch doc jroot ent jdec now' st' = Ok (ent_set_ver e (ent_ver e + 1)%Z).
 Proof.
   intros doc ent jset jget jincr jroot jenc jdec ent_ver ent_set_ver ent_ext vn (H1 & H2 & H3) now now' st0 st' e v'.
   exact (json_save_fetch doc jset jget jincr jroot ent jenc jdec ent_ver ent_set_ver ent_ext vn H1 H2 H3 now now' st0 e st' v').
@@ -149,7 +150,7 @@ Definition ex_entity (p : option bytes) (ver : Z) : tentity :=
 (** two savers with the same version: one winner, one mismatch; then a save of a nil pointer over the
     stored string, and the fetch returns the nil *)
 Example C40_nonvacuous :
-  snd (run tJ tjprint tjparse [] ex_schema None
+  snd (run tJ tjprint tjparse tjzero ex_schema None
          [OSave _ 10%Z (ex_entity (Some (h "6f6c64")) 0); OSave _ 11%Z (ex_entity (Some (h "78")) 0);
           OSave _ 12%Z (ex_entity None 1); OFetch _ 13%Z]) =
   [BSave _ (SaveOk 1); BSave _ SaveMismatch; BSave _ (SaveOk 2);
@@ -171,7 +172,7 @@ Definition old_args (e : tentity) : list bytes :=
 Example C40_unfixed_script_keeps_stale_field :
   let st1 := fst (hash_save_script 10%Z None (old_args (ex_entity (Some (h "6f6c64")) 0))) in
   let st2 := fst (hash_save_script 12%Z st1 (old_args (ex_entity None 1))) in
-  match fetch tJ tjparse [] ex_schema 13%Z st2 with
+  match fetch tJ tjparse tjzero ex_schema 13%Z st2 with
   | Ok e' => e_fields _ e' = e_fields _ (ex_entity (Some (h "6f6c64")) 0)   (* the old *string is back, not nil *)
   | _ => False
   end.
